@@ -181,6 +181,8 @@ def _combos(l):
 def _obs(s):
     def lst():
         a = s.list()
+        if len(a) > 1500:  # far beyond anything the generator asks for: report the size only
+            return ["too-many-combinations", len(a)]
         b = [dict(c) for c in s]  # iteration yields the same combinations
         if a != b or [list(x) for x in a] != [list(x) for x in b]:
             raise RuntimeError("iteration differs from list()")
@@ -427,7 +429,7 @@ def gen_keys(rng, r):
     ck = combo_key_list(r)
     if not ck or rng.random() < 0.05:
         return rng.sample(["a", "zz"], rng.randint(0, 2))
-    ks = rng.sample(ck, rng.randint(1, len(ck)))
+    ks = rng.sample(ck, rng.randint(1, min(3, len(ck))))
     if rng.random() < 0.06:
         ks.append(rng.choice(["zz", ks[0]]))
     return ks
@@ -442,7 +444,7 @@ def gen_filter_sweep(rng):
             r["excl"] = None
             for kv in r["items"]:
                 kv[1] = copy.deepcopy(rng.sample(VALS, len(kv[1])))
-        if n_base(r) <= 27:
+        if n_base(r) <= 12:
             return r
     return r
 
@@ -609,7 +611,18 @@ def generate(rng, tier, mult):
     for c in cases:
         if c["kind"] == "product" and c["r"] is None:
             c["r"], c["others"] = c["others"][0], c["others"][1:]
+        if c["kind"] == "product":
+            # keep the literals small: at most 256 combinations
+            while c["others"] and n_base(c["r"]) * _prod(n_base(o) for o in c["others"]) > 256:
+                c["others"].pop()
     return cases
+
+
+def _prod(xs):
+    n = 1
+    for x in xs:
+        n *= x
+    return n
 
 
 def _leaves(e):
